@@ -158,6 +158,26 @@ class C13:
                 ids.add("unionsAligned")
         return sorted(ids), ("model-agrees" if agree else "model-DISAGREES"), infos
 
+    def shrink(self, row):
+        """second harness run on the failing (schema, object, documents): one-case lab + shrinking"""
+        tmp = os.path.join(WORK, "c13_shrink_%d.json" % os.getpid())
+        try:
+            json.dump({"format": row.get("format"), "defs": row.get("defs"), "object": row["object"],
+                       "docs": row.get("docs"), "law": row.get("law", ""), "idx": row.get("idx", [])}, open(tmp, "w"))
+            for r in harness(self.hb, "c13-replay", file=tmp, shrink=1):
+                if r[0] == "-" and len(r) > 2 and r[2].startswith("FAIL"):
+                    o = json.loads(r[1])
+                    if o.get("law") == row.get("law"):
+                        o["format"] = row.get("format")
+                        o["kind"] = row.get("kind")
+                        return o
+        except Exception as e:  # shrinking is best effort
+            log("shrink failed:", e)
+        finally:
+            if os.path.exists(tmp):
+                os.remove(tmp)
+        return row
+
     def classify_failures(self, stream, args):
         c = self.c
         reported = 0
@@ -186,6 +206,8 @@ class C13:
             self.unexplained += 1
             if reported < 5:
                 reported += 1
+                if not row.get("shrunk") and stream != "c13-replay":
+                    row = self.shrink(row)
                 c.violation({"kind": "oracle-failure", "stream": stream, "args": args, "law": law,
                              "format": row.get("format"), "defs": row.get("defs"), "object": row["object"],
                              "docs": row.get("docs"), "idx": row.get("idx"), "group_kind": row.get("kind"),
